@@ -160,7 +160,8 @@ func detrestSASuite(c *Ctx) {
 		pSA := []float64{0, 0.3, 0.7, 1}[r.Intn(4)]
 		results := make([]*gozxing.Result, cnt)
 		in := make([]string, cnt)
-		nSA, wrongSeq := 0, 0
+		nSA, tie := 0, false
+		seen := map[int]bool{}
 		for i := range results {
 			text := detrestRandBytes(r, 20)
 			raw := detrestRandBytes(r, 20)
@@ -181,9 +182,14 @@ func detrestSASuite(c *Ctx) {
 				m := detrestGenMeta(r, k, pool, i)
 				if k == int(gozxing.ResultMetadataType_STRUCTURED_APPEND_SEQUENCE) {
 					nSA++
-					if !strings.HasPrefix(m.tok, "i") {
-						wrongSeq++
+					eff := 0 // the number the comparator sees: 0 for a value that is not an int
+					if n, ok := m.val.(int); ok {
+						eff = n
 					}
+					if seen[eff] {
+						tie = true
+					}
+					seen[eff] = true
 				}
 				res.PutMetadata(gozxing.ResultMetadataType(k), m.val)
 				ms = append(ms, fmt.Sprintf("%d:%s", k, m.tok))
@@ -195,7 +201,7 @@ func detrestSASuite(c *Ctx) {
 			}
 			in[i] = fmt.Sprintf("%s;%s;%d;%s", hexs(text), hexs(raw), len(pts), md)
 		}
-		if nSA >= 12 && wrongSeq > 1 { // several wrongly typed sequence values all count as 0: ties in an unstable sort
+		if nSA >= 12 && tie { // equal sequence numbers (a wrongly typed value counts as 0) in a list Go sorts with an unstable sort
 			continue
 		}
 		out := SafeT(5*time.Second, func() string {
